@@ -67,8 +67,8 @@ def generate(rng, tier):
     cases = []
     quick = (tier == "quick")
     g = rng.fork("c08")
-    nsys_small = 90 if quick else 500
-    nsys_big = 40 if quick else 200
+    nsys_small = 90 if quick else 900
+    nsys_big = 40 if quick else 400
     maxn = 40 if quick else 60
     def emit(n, fam, tag):
         ints = g.chance(2, 3)
